@@ -57,6 +57,7 @@ def run_one(prop_id, job, scratch, timeout):
     env["PYTHONDONTWRITEBYTECODE"] = "1"
     env["BEC2FORMAT_VERIF"] = "1"
     env["VERIF_SCRATCH"] = scratch
+    env["PYTHONUTF8"] = "1"
     cmd = [PY, "-B", "-m", "bvm.shard", prop_id, spec_file, out_file]
     if job.get("dev"):
         cmd = [PY, "-B", "-X", "dev", "-m", "bvm.shard", prop_id, spec_file, out_file]
